@@ -293,10 +293,10 @@ def parseAddReq (ws : List String) : Option AddReq := do
   pure { creds := cfgd, auth := sa, mp := ← parseMp (← field ws "mp"),
          query := ← parseQuery (← field ws "q"), md := ← listOf parseKV (← field ws "md"), rpc := ← parseRpc (← field ws "rpc") }
 
-def parseRoot (s : String) : Option (Option RootDesc) :=
-  if s == "-" then some none
+def parseRoot (s : String) : Option (Option RootDesc × String) :=
+  if s == "-" then some (none, "-")
   else match s.splitOn "." with
-    | [v, c, h] => v.toNat?.map (fun n => some ⟨n, c, h⟩)
+    | [v, c, h, lf] => v.toNat?.map (fun n => (some ⟨n, c, h⟩, lf))
     | _ => none
 
 def parseAddOp (s : String) : Option Op :=
@@ -304,17 +304,42 @@ def parseAddOp (s : String) : Option Op :=
   | [n, "opts", o] => (parseOpts o).map (fun x => ⟨n, .path "" (canonOpts x)⟩)
   | _ => parseOp s
 
+def parseBits (s : String) : Option (List Bool) :=
+  s.toList.mapM (fun c => if c == '1' then some true else if c == '0' then some false else none)
+
+def unWord (s : String) : String := if s == "_" then "" else s
+
+/-- `ap=<layout>/<chunker>/<hash>/<format>/<loc recursive hidden wrap shard progress rawLeaves stream nocopy as 0|1>/<cid-version>`, `-` = refused -/
+def parseSeen (s : String) : Option (Option AddSeen) :=
+  if s == "-" then some none
+  else match s.splitOn "/" with
+    | [la, ch, ha, fo, bits, v] =>
+      (match parseBits bits, v.toInt? with
+       | some [lo, re, hi, wr, sh, pr, ra, st, nc], some cv =>
+         some (some { layout := unWord la, chunker := unWord ch, hash := unWord ha, format := unWord fo, loc := lo, recursive := re,
+                      hidden := hi, wrap := wr, shard := sh, progress := pr, cidv := cv, rawLeaves := ra, stream := st, nocopy := nc })
+       | _, _ => none)
+    | _ => none
+
+def showSeen : Option AddSeen → String
+  | none => "-"
+  | some s =>
+    let w (x : String) := if x == "" then "_" else x
+    let b (x : Bool) := if x then "1" else "0"
+    w s.layout ++ "/" ++ w s.chunker ++ "/" ++ w s.hash ++ "/" ++ w s.format ++ "/" ++
+      b s.loc ++ b s.recursive ++ b s.hidden ++ b s.wrap ++ b s.shard ++ b s.progress ++ b s.rawLeaves ++ b s.stream ++ b s.nocopy ++
+      "/" ++ toString s.cidv
+
 def parseAddResp (ws : List String) : Option AddResp := do
   let opsTok ← field ws "ops"
   let ops ← if opsTok == "-" then some [] else (opsTok.splitOn "|").mapM parseAddOp
+  let (root, lf) ← parseRoot (← field ws "root")
   pure { status := ← (← field ws "st").toNat?, body := ← parseBodyShape (← field ws "body"), trailer := (← field ws "tr") == "1",
-         root := ← parseRoot (← field ws "root"), ops := ops }
+         root := root, ops := ops, leaf := lf }
 
 /-- a streamed body is one document per added node and progress note: how many is the adder's business
-    (C13), as are the version and codec of the root CID; only "JSON documents and nothing else" and the hash
-    function are compared -/
+    (C13); "JSON documents and nothing else" is compared, and the root CID by version, codec and hash function -/
 def normAddBody (r : AddReq) (o : AddResp) : AddResp :=
-  let o : AddResp := { o with root := o.root.map (fun (x : RootDesc) => ({ x with version := 0, codec := "" } : RootDesc)) }
   match o.body with
   | .docs _ => if addStreams r && o.status == 200 then { o with body := .docs 0 } else o
   | _ => o
@@ -340,24 +365,46 @@ def answerAdd (pre post : List String) : String :=
   match parseAddReq pre, parseAddResp post with
   | some r, some o =>
     let ma := match parseCredSit pre "au" with | some (_, _, x) => x | none => r.auth
-    let m := addHandle { r with auth := ma }
+    let m := addHandle0 { r with auth := ma }
     let a := "Add-" ++ toString m.status ++ (if m.trailer then "-trailer" else "")
     let failed := (addClauses r o).filter (fun c => !c.2)
     if !failed.isEmpty then
       let names := failed.map (·.1)
       "propfail " ++ ",".intercalate names ++ " arm=" ++ a ++
         (if names.contains "fail_closed" then " why=" ++ addWhy r else "") ++
-        (if names.contains "answered" then " why=no-response" else "")
+        (if names.contains "answered" then " why=no-response" else "") ++
+        (if names.contains "options_exact" then " why=leaf-form-not-as-asked" else "")
     else if canonAddResp (normAddBody r o) != canonAddResp (normAddBody r m) then
       "diff arm=" ++ a ++ " model=st=" ++ toString m.status ++ ",body=" ++ showBody m.body ++ ",ops=" ++
-        ",".intercalate (m.ops.map (·.name)) ++ ",root=" ++ (match m.root with | some x => toString x.version ++ "." ++ x.codec ++ "." ++ x.hash | none => "-")
+        ",".intercalate (m.ops.map (·.name)) ++ ",root=" ++ (match m.root with | some x => toString x.version ++ "." ++ x.codec ++ "." ++ x.hash | none => "-") ++ "." ++ m.leaf
     else "ok arm=" ++ a
   | none, _ => "bad-case add-request"
   | _, none => "bad-case add-response"
 
+/-- `addp` lines: the real `AddParamsFromQuery` on the query alone -/
+def answerAddp (pre post : List String) : String :=
+  match (do
+      let q ← parseQuery (← field pre "q")
+      let md ← listOf parseKV (← field pre "md")
+      let seen ← parseSeen (← field post "ap")
+      pure (q, md, seen) : Option (List (String × QV) × List (Nat × Nat) × Option AddSeen)) with
+  | none => "bad-case addp-line"
+  | some (q, md, seen) =>
+    let m := seenOf q md
+    let a := "Addp-" ++ (match m with
+      | none => "refused"
+      | some s => "v" ++ toString s.cidv ++ (if otherHash q && getq q "cid-version" == .empty then "up" else "") ++
+                  (if s.rawLeaves then "-raw" else "-pb") ++ (if getq q "raw-leaves" == .empty then "" else "x"))
+    let failed := (parseClauses q md seen).filter (fun c => !c.2)
+    if !failed.isEmpty then
+      "propfail " ++ ",".intercalate (failed.map (·.1)) ++ " arm=" ++ a ++ " model=" ++ showSeen m
+    else if seen != m then "diff arm=" ++ a ++ " model=" ++ showSeen m
+    else "ok arm=" ++ a
+
 def answer (ws : List String) : String :=
   match splitArrow ws with
   | some ("add" :: pre, post) => answerAdd pre post
+  | some ("addp" :: pre, post) => answerAddp pre post
   | some ("req" :: pre, post) => answerReq pre post
   | some ("cli" :: pre, post) => answerCli pre post
   | some (k :: _, _) => "bad-case unknown-kind " ++ k
